@@ -74,6 +74,18 @@ reg(
     "DESIGN.md 4.1 C04",
 )
 
+reg(
+    "C19",
+    "Finite-domain exhaustion of the canonicalisers and representation changes: all affine expression trees with <= 3 (thorough 4) operators over "
+    "+,*,floordiv,mod evaluated on every point of [-3,6]^2 before/after canonicalize_expr/canonicalize_map (+ idempotence, termination); all small integer "
+    "matrices through AffineTransform from/to map, eval, compose; AccessPattern canonicalize/inner_dims/clear_unused_dims as index multisets; all stride "
+    "patterns with <= 4 temporal dims (zero bounds/strides, unit bounds) as address *sequences* before/after canonicalize + print->parse; pack_bitlist "
+    "executed on the IR machine for all value/offset lists; streamer configuration attributes print->parse compared structurally.",
+    "Trusted: the independent evaluators in checks/C19.py and machines/stream.py (address sequence), machines/ir.py (shli/ori). Values beyond the menus are not covered.",
+    "explicit enumeration of finite input domains x all evaluation points against reference evaluators",
+    "DESIGN.md 4.5 C19",
+)
+
 NOT_APPLICABLE = []
 
 ALL = [f"C{i:02d}" for i in range(1, 21)]
